@@ -65,8 +65,12 @@ void faults_enable(bool on);   // the harness switches faults off for the livene
 void access_yield(const void *addr, int size, int is_write, int order);
 void access_region_add(const void *base, size_t len);
 void access_regions_clear();
+int access_region_of(const void *addr);    // index of the registered region holding addr, or -1
+extern uint64_t g_access_value;            // value being stored, set by the atomic front end before access_yield
 
 uint64_t steps();
+uint64_t handoffs();
+extern void (*g_fault_counter)(int kind);   // called whenever a fault fires
 
 // end the run now without a verdict change (expected end reached from inside a task)
 void finish_run();
